@@ -22,7 +22,7 @@ var caseFns = map[string]core.CaseFunc{}
 func registerCase(mode string, f core.CaseFunc) { caseFns[mode] = f }
 
 func register(id, level string, f checkFn) { checks[id] = f; levels[id] = level }
-func registerChild(mode string, f childFn)  { children[mode] = f }
+func registerChild(mode string, f childFn) { children[mode] = f }
 
 func main() {
 	if len(os.Args) < 2 {
